@@ -193,7 +193,7 @@ func keyedHistoryOpt(depth int, negDelay bool) func() {
 		ctxSet := vsched.Choose(2) == 1
 		script := vsched.Choose(3)
 		m := newKModel(delay, ctxSet, script)
-		var opts []keyed.Option[string, int]
+		opts := []keyed.Option[string, int]{nil} // (a nil option is skipped; the options after it still apply)
 		if delay {
 			opts = append(opts, keyed.WithReleaseDelay[string, int](delayArg))
 		}
@@ -270,7 +270,7 @@ func keyedRefHistory(depth int) func() {
 		ctxSet := vsched.Choose(2) == 1
 		script := vsched.Choose(3)
 		m := newKModel(delay, ctxSet, script)
-		var opts []keyed.Option[string, int]
+		opts := []keyed.Option[string, int]{nil} // (a nil option is skipped; the options after it still apply)
 		if delay {
 			opts = append(opts, keyed.WithReleaseDelay[string, int](time.Second))
 		}
